@@ -246,11 +246,19 @@ def run(tier: str, rng: random.Random, proof_ok: bool) -> dict:
     # correspondence in its own right; the recorded finding (signature container-predicate-on-payload)
     # explains second runs only and must not absorb it
     shown = 0
+    unlike = False
     for c, model in rep.get("mismatches", []):
         try:
             r = oracle(c)
         except Exception:  # noqa
             r = None
+        if r and r["signature"] == "C17:container-predicate-on-payload" and not model.lstrip("( ").startswith("OValid") and not unlike:
+            # the model contains the mechanism of the recorded finding (container predicates see the coerced input,
+            # not the payload) and yet does not accept this input: the broken fixed point is not that finding
+            unlike = True
+            rep["violations"].append({"kind": "oracle", "signature": "C17:not-a-fixed-point",
+                                      "what": r["what"] + f" (the model, recorded finding included, answers the first run with {model[:200]})",
+                                      "replay_case": c.to_json(), "observed": coq(c.obs)})
         if r and r["signature"] == "C17:container-predicate-on-payload" and shown < 2:
             shown += 1
             rep["violations"].append({"kind": "correspondence", "signature": None,
